@@ -59,6 +59,13 @@ class MutRef(tuple):
         self.env[self.name] = ("list", tuple(cur[:self.a] + list(part) + cur[self.z:]))
 
 
+class FalseOrNone(tuple):
+    """what removing from an *empty* collection answers: `None` (a map) or `false` (a set) - the model has no types; this value
+    equals `None` and counts as `false` in a condition"""
+    def __new__(cls):
+        return tuple.__new__(cls, ("ctor", "None", ()))
+
+
 class EntryRef(tuple):
     """the entry bound by `match map.entry(k) { Entry::Vacant(e) => .., Entry::Occupied(e) => .. }`: a ctor value
     (VacantEntry(key) / OccupiedEntry(key, value)) that remembers which map it belongs to, so `e.insert(v)` lands there"""
@@ -334,6 +341,12 @@ class AEval(dtable.Eval):
                         pass
                     finally:
                         self.depth -= 1
+            mi_ = re.match(r"^(?:std::|core::)?([ui])(8|16|32|64|128|size)::(MAX|MIN)$", p)
+            if mi_ and p not in self.consts:
+                bits = 64 if mi_.group(2) == "size" else int(mi_.group(2))
+                if mi_.group(1) == "u":
+                    return I((1 << bits) - 1 if mi_.group(3) == "MAX" else 0)
+                return I((1 << (bits - 1)) - 1 if mi_.group(3) == "MAX" else -(1 << (bits - 1)))
             if p == "Self" and (env.get("#Self") or (getattr(self, "_impl_stack", None) and self._impl_stack[-1])):
                 return C(env["#Self"][1] if env.get("#Self") else self._impl_stack[-1])           # the tuple-struct constructor of the impl's own type
             if p.split("::")[-1][:1].isupper():
@@ -365,6 +378,10 @@ class AEval(dtable.Eval):
             if e.get("text") in ("true", "false"):
                 return B(e["text"] == "true")
             v = lit_value(e["text"])
+            if v is None and re.match(r"^\d[\d_]*(\.\d[\d_]*)?([eE][-+]?\d+)?(f32|f64)?$", e["text"].strip()) and re.search(r"[.eE]|f32|f64", e["text"]):
+                return _float_atom(float(re.sub(r"(f32|f64)$", "", e["text"].strip()).replace("_", "")))        # a float literal
+            if v is None and re.match(r"^\d[\d_]*(i8|i16|i128|u128)$", e["text"].strip()):
+                return I(int(re.sub(r"(i8|i16|i128|u128)$", "", e["text"].strip()).replace("_", "")))
             return v if v is not None else A("lit:" + e["text"])
         if k == "Struct":
             fs = {f["member"]: self.ex(f["expr"], env) for f in e["fields"]}
@@ -386,11 +403,24 @@ class AEval(dtable.Eval):
                 if op == "&&":
                     return B(a and self.truth(e["right"], env))
                 return B(a or self.truth(e["right"], env))
-            if op in ("+=", "-=") and is_node(e["left"]) and e["left"]["k"] == "Path":
-                a, b = self.ex(e["left"], env), self.ex(e["right"], env)
+            if op in ("+=", "-=", "*=") and is_node(e["left"]):
+                lf = e["left"]
+                while is_node(lf) and lf["k"] in ("Paren",) or (is_node(lf) and lf["k"] == "Unary" and lf.get("op") == "*"):
+                    lf = lf["expr"]
+                a, b = self.ex(lf, env), self.ex(e["right"], env)
+                if a == DEFAULT:
+                    a = I(0)
                 if a[0] == "int" and b[0] == "int":
-                    env[e["left"]["path"]] = I(a[1] + b[1] if op == "+=" else a[1] - b[1])
-                    return UNIT
+                    nv = I(a[1] + b[1] if op == "+=" else (a[1] - b[1] if op == "-=" else a[1] * b[1]))
+                    if lf["k"] == "Path":
+                        env[lf["path"]] = nv
+                        self._note_assigned(lf["path"])
+                        return UNIT
+                    pl_ = self._mut_place(lf, env)
+                    if pl_ is not None:
+                        self._place_store(pl_, nv, env)
+                        return UNIT
+                    raise Unknown("compound assignment to a place that is not modelled")
                 raise Unknown("compound assignment on non numbers")
             a, b = self.ex(e["left"], env), self.ex(e["right"], env)
             fa, fb = (a[0] == "atom" and a[1].startswith(("float:", "lit:"))), (b[0] == "atom" and b[1].startswith(("float:", "lit:")))
@@ -410,6 +440,19 @@ class AEval(dtable.Eval):
                 raise Unknown("ordering of non numbers")
             if op in ("+", "-") and a[0] == "int" and b[0] == "int":
                 return I(a[1] + b[1] if op == "+" else a[1] - b[1])
+            if op in ("*", "/", "%") and a[0] == "int" and b[0] == "int":
+                if op == "*":
+                    return I(a[1] * b[1])
+                if b[1] == 0:
+                    return C("!panic")
+                q = abs(a[1]) // abs(b[1]) * (1 if (a[1] >= 0) == (b[1] >= 0) else -1)      # Rust truncates toward zero
+                return I(q if op == "/" else a[1] - q * b[1])
+            if op in ("+", "-", "*", "/") and _num(a) is not None and _num(b) is not None and ((a[0] == "atom") or (b[0] == "atom")) and a[0] != "int" and b[0] != "int":
+                x, y = _num(a), _num(b)
+                try:
+                    return _float_atom({"+": x + y, "-": x - y, "*": x * y, "/": (x / y if y != 0 else (float("inf") if x > 0 else float("-inf") if x < 0 else float("nan")))}[op])
+                except OverflowError:
+                    raise Unknown("float overflow")
             raise Unknown("operator " + op)
         if k == "Unary":
             v = self.ex(e["expr"], env)
@@ -421,6 +464,8 @@ class AEval(dtable.Eval):
                 return v
             if e["op"] == "-" and v[0] == "int":
                 return I(-v[1])
+            if e["op"] == "-" and v[0] == "atom" and v[1].startswith("float:") and _num(v) is not None:
+                return A("float:-0") if v[1] == "float:0" else _float_atom(-_num(v))
             raise Unknown("unary " + e["op"])
         if k == "Ref" and e.get("mut"):
             # `&mut v[a..b]` / `&mut v` of a list variable: a reference through which the list can be changed in place
@@ -449,6 +494,8 @@ class AEval(dtable.Eval):
                 bits = 64 if ty_.endswith("size") else int(ty_[1:])
                 lo, hi = (0, (1 << bits) - 1) if ty_[0] == "u" else (-(1 << (bits - 1)), (1 << (bits - 1)) - 1)
                 return I(0 if x_ != x_ else max(lo, min(hi, int(x_))) if abs(x_) != float("inf") else (hi if x_ > 0 else lo))
+            if v[0] == "bool" and re.match(r"^[ui](8|16|32|64|128|size)$", ty_):
+                return I(1 if v[1] else 0)
             if v[0] == "int" and ty_ in ("f64",):
                 return _float_atom(float(v[1]))
             if v[0] == "int" and ty_ == "f32":
@@ -743,6 +790,8 @@ class AEval(dtable.Eval):
 
     def truth(self, e, env):
         v = self.ex(e, env)
+        if isinstance(v, FalseOrNone):
+            return False
         if v[0] != "bool":
             raise Unknown("condition is not a boolean: %s" % (v,))
         return v[1]
@@ -1237,6 +1286,10 @@ class AEval(dtable.Eval):
                 return rest, (C("Some", hit[0][1][1]) if hit else C("None"))
             if m == "take":
                 return [x for x in cur if x != k], (C("Some", k) if k in cur else C("None"))
+            if not cur:
+                # nothing in it: a set would answer `false`, a map `None` - the model cannot tell which this is; the answer is a value
+                # that is both (usable as a condition, and as an absent Option)
+                return [], FalseOrNone()
             return [x for x in cur if x != k], B(k in cur)       # set
         raise Unknown("mutation " + m)
 
@@ -1899,8 +1952,13 @@ class AEval(dtable.Eval):
                         raise Unknown("try_fold step")
                 if wrap is None:
                     # no step ran: the wrapper (Option / Result) is what the closure's success value would be
-                    body_t = _flatp(show(args[1][1]["body"])) if args[1][0] == "closure" else ""
-                    wrap = "Some" if re.search(r"\bSome\b", body_t) and not re.search(r"\bOk\b", body_t) else "Ok"
+                    body_t = show(args[1][1]["body"]) if args[1][0] == "closure" else ""
+                    if re.search(r"\bSome\b|\bNone\b", body_t) and not re.search(r"\bOk\b|\bErr\b", body_t):
+                        wrap = "Some"
+                    elif re.search(r"\bOk\b|\bErr\b|\?", body_t) and not re.search(r"\bSome\b|\bNone\b", body_t):
+                        wrap = "Ok"
+                    else:
+                        raise Unknown("try_fold over nothing: cannot tell Option from Result")
                 return C(wrap, acc)
             if m == "reduce" and len(args) == 1 and m not in self.funcs:
                 if not xs:
@@ -2108,7 +2166,8 @@ class AEval(dtable.Eval):
             if len(args) == 3 and args[2][0] == "int":
                 return ("str", t.replace(fr_, to_, args[2][1]))
         if m == "eq_ignore_ascii_case" and len(args) == 1 and args[0][0] == "str":
-            return B(t.lower() == args[0][1].lower())
+            fold = lambda x: "".join(c.lower() if c.isascii() else c for c in x)  # noqa: E731 - ASCII letters only, as in Rust
+            return B(fold(t) == fold(args[0][1]))
         if m == "repeat" and len(args) == 1 and args[0][0] == "int":
             return ("str", t * args[0][1])
         if m == "trim_start" and not args:
@@ -2203,6 +2262,8 @@ class AEval(dtable.Eval):
         return None
 
     def _b(self, v):
+        if isinstance(v, FalseOrNone):
+            return False
         if v[0] != "bool":
             raise Unknown("predicate did not yield a boolean")
         return v[1]
